@@ -398,14 +398,14 @@ Proof.
   assert (Hmid : exists t1,
     (if segmentizes (st t0) then
        if mtu t0 <? SPACE_FOR_HEADERS then Panic 5
-       else match seg_loop (S (length (out_text t0))) t0 (mtu t0 - SPACE_FOR_HEADERS) (zlen (out_text t0)) with
+       else match seg_loop (Datatypes.S (length (out_text t0))) t0 (mtu t0 - SPACE_FOR_HEADERS) (zlen (out_text t0)) with
             | Ok t1 => Ok (queue_pending_fin t1) | other => other end
      else Ok t0) = Ok t1 /\ SndInv iss m S t1 /\ pv_le (my_pv iss S t) (my_pv iss S t1) /\
      rcv_same t t1 /\ oneshot t1 = []).
   { destruct (segmentizes (st t0)).
     - assert (Em : mtu t0 = m) by apply HI0. rewrite Em. unfold SPACE_FOR_HEADERS.
       replace (m <? 50) with false by lia.
-      destruct (seg_loop_inv iss m S (m - 50) Hu Hb ltac:(lia) (S (length (out_text t0))) t0 _ HI0 eq_refl ltac:(lia))
+      destruct (seg_loop_inv iss m S (m - 50) Hu Hb ltac:(lia) (Datatypes.S (length (out_text t0))) t0 _ HI0 eq_refl ltac:(lia))
         as (t1 & E1 & I1 & L1 & R1 & O1 & _).
       rewrite E1. destruct (qpf_inv iss m S t1 Hu Hb I1) as (B1 & B2 & B3 & B4).
       exists (queue_pending_fin t1). split; [reflexivity|]. split; [exact B1|].
